@@ -58,8 +58,8 @@ def run(ctx):
         tc.expect_model_violation(ctx, cfg, 'NoStartAfterCancel', WHAT, 'unrepaired code shape must show the counterexample: ' + cfg)
     rng = random.Random(ctx.seed * 7919 + 4)
     g = tc.Gen(rng)
-    n = 6 if thorough else 2
-    scens = [g.single(throws=0.15, cancel=0.9, nested=0.5, pools=(0, 1, 1, 2, 3)) for _ in range(60 if thorough else 8)]
+    n = 6 if thorough else 3
+    scens = [g.single(throws=0.15, cancel=0.9, nested=0.5, pools=(0, 1, 1, 2, 3)) for _ in range(60 if thorough else 14)]
     r = tc.run_scenarios(ctx, exe, [
         ('deterministic cancel-overload-schedule', DETERMINISTIC, 1),
         ('directed parent cascade', CASCADE, 2),
